@@ -8,6 +8,10 @@ from __future__ import annotations
 import math
 
 
+class DualCast(TypeError):
+    pass
+
+
 class Dual:
     __slots__ = ("v", "d")
     __array_priority__ = 1000
@@ -73,7 +77,28 @@ class Dual:
         return Dual(s, self.d / (2 * s))
 
     def __float__(self):
-        return self.v
+        # a cast to float (float(x), np.asarray(x, dtype=float), math.log(x)) would silently drop the derivative:
+        # make it loud; derivative() then falls back to finite differences
+        raise DualCast("dual number cast to float: derivative tracking lost")
+
+    def __abs__(self):
+        return self if self.v >= 0 else -self
+
+    def log10(self):
+        return Dual(math.log10(self.v), self.d / (self.v * math.log(10.0)))
+
+    def log2(self):
+        return Dual(math.log2(self.v), self.d / (self.v * math.log(2.0)))
+
+    def log1p(self):
+        return Dual(math.log1p(self.v), self.d / (1.0 + self.v))
+
+    def expm1(self):
+        return Dual(math.expm1(self.v), math.exp(self.v) * self.d)
+
+    def cbrt(self):
+        c = math.copysign(abs(self.v) ** (1.0 / 3.0), self.v)
+        return Dual(c, self.d / (3.0 * c * c))
 
     def __lt__(self, o):
         return self.v < float(self._c(o).v)
@@ -96,9 +121,52 @@ class Dual:
         return f"Dual({self.v!r}, {self.d!r})"
 
 
+def _unwrap(out):
+    if isinstance(out, Dual):
+        return out
+    try:
+        import numpy as np  # noqa: PLC0415
+
+        if isinstance(out, np.ndarray) and out.dtype == object and out.size == 1 and isinstance(out.reshape(-1)[0], Dual):
+            return out.reshape(-1)[0]  # e.g. np.where(cond, dual, const)
+    except Exception:  # noqa: BLE001
+        pass
+    return out
+
+
+def derivative_ref(f, x):
+    """(value, derivative, relative tolerance) of f at x.
+
+    Exact route: f is run on a dual number by the parent's own code; tolerance None means "exact, use the caller's
+    rounding-level tolerance".  If the parent's code cannot carry a dual number (it casts to float, uses a ufunc
+    the dual does not implement, ...) the derivative is obtained by Richardson-extrapolated central differences
+    instead and a tolerance of 1e-7 is returned; next to a kink of f (one-sided differences disagree) that route
+    returns (value, None, None): nothing is demanded there rather than risking a false alarm."""
+    try:
+        out = _unwrap(f(Dual(x, 1.0)))
+        if isinstance(out, Dual):
+            return out.v, out.d, None
+        return float(out), 0.0, None  # x never entered the arithmetic: a constant branch (e.g. the initial GOR above p_b)
+    except (TypeError, AttributeError, ValueError):
+        pass
+    h = 1e-4 * max(abs(x), 1e-6)
+    f0 = float(f(x))
+
+    def cd(hh):
+        return (float(f(x + hh)) - float(f(x - hh))) / (2 * hh)
+
+    d1, d2 = cd(h), cd(h / 2)
+    left = (f0 - float(f(x - h))) / h
+    right = (float(f(x + h)) - f0) / h
+    scale = max(abs(d1), abs(d2), abs(left), abs(right), 1e-300)
+    if abs(left - right) > 1e-3 * scale or abs(d1 - d2) > 1e-6 * scale:
+        return f0, None, None
+    return f0, (4 * d2 - d1) / 3, 1e-7
+
+
 def derivative(f, x):
     """d f / d x at x, with f evaluated by the parent's own code on a dual number."""
-    out = f(Dual(x, 1.0))
-    if isinstance(out, Dual):
-        return out.v, out.d
-    return float(out), 0.0  # the parent returned a constant (e.g. the initial GOR above p_b)
+    v, d, tol = derivative_ref(f, x)
+    if tol is not None or d is None:
+        raise DualCast("the function cannot be differentiated exactly with dual numbers")
+    return v, d
